@@ -242,3 +242,113 @@ pub fn failing_writer_verdict(kind: &str, fw: &FailingWriter, reference_kind: &s
     }
     None
 }
+
+/// An `io::Write` target with a BYTE budget: `write` accepts `min(remaining, buf.len())` bytes and returns
+/// `Ok(n)`; once nothing remains a non-empty `write` is answered with an `io::Error` (`WriteZero`).  `write_all`
+/// is the default one, so the call that does not fit fills the budget first and then fails — possibly in the
+/// middle of a multi-byte character.  Model: `BytePolicy.byteBudget remaining`
+/// (lean/XotModel/Model/WriterBytes.lean).
+pub struct ByteBudgetWriter {
+    pub remaining: usize,
+    /// bytes accepted so far
+    pub data: Vec<u8>,
+    /// `write` calls answered with an error (a caller that stops at the first error makes this at most 1)
+    pub refused: usize,
+}
+
+impl ByteBudgetWriter {
+    pub fn new(remaining: usize) -> Self {
+        ByteBudgetWriter { remaining, data: Vec::new(), refused: 0 }
+    }
+}
+
+impl std::io::Write for ByteBudgetWriter {
+    fn write(&mut self, buf: &[u8]) -> std::io::Result<usize> {
+        if buf.is_empty() {
+            return Ok(0);
+        }
+        if self.remaining == 0 {
+            self.refused += 1;
+            return Err(std::io::Error::new(std::io::ErrorKind::WriteZero, "ByteBudgetWriter: budget exhausted"));
+        }
+        let n = buf.len().min(self.remaining);
+        self.data.extend_from_slice(&buf[..n]);
+        self.remaining -= n;
+        Ok(n)
+    }
+    fn flush(&mut self) -> std::io::Result<()> {
+        Ok(())
+    }
+}
+
+/// Bytes on the wire: `b:` + dot-separated hex bytes.
+pub fn enc_bytes(b: &[u8]) -> String {
+    let mut out = String::from("b:");
+    for (i, x) in b.iter().enumerate() {
+        if i > 0 {
+            out.push('.');
+        }
+        write!(out, "{:x}", x).unwrap();
+    }
+    out
+}
+
+/// Byte budgets for a serialisation whose never-failing run delivers `reference`: the `rot`-th class of
+/// (nothing, one byte, the middle, all but one byte, exact, spare) and — whenever the bytes contain a multi-byte
+/// character — a budget that ends INSIDE one (after its first, second or third byte, rotating).
+pub fn pick_byte_budgets(reference: &[u8], rot: u64) -> Vec<(usize, &'static str)> {
+    let n = reference.len();
+    let mut v = vec![match rot % 6 {
+        0 => (0, "nothing"),
+        1 => (1, "one-byte"),
+        2 => (n / 2, "middle"),
+        3 => (n.saturating_sub(1), "all-but-one-byte"),
+        4 => (n, "exact-budget"),
+        _ => (n + 3, "spare-budget"),
+    }];
+    // budget i ends inside a character iff reference[i] is a continuation byte
+    let inside: Vec<usize> = (0..n).filter(|&i| reference[i] & 0xC0 == 0x80).collect();
+    if !inside.is_empty() {
+        let i = inside[(rot as usize).wrapping_mul(7) % inside.len()];
+        // how many bytes of the character are through, and how long it is
+        let mut s = i;
+        while reference[s] & 0xC0 == 0x80 {
+            s -= 1;
+        }
+        let len = if reference[s] >= 0xF0 { 4 } else if reference[s] >= 0xE0 { 3 } else { 2 };
+        v.push((i, match (i - s, len) {
+            (1, 2) => "inside-2-byte-char",
+            (1, 3) => "inside-3-byte-char-after-1",
+            (2, 3) => "inside-3-byte-char-after-2",
+            (1, 4) => "inside-4-byte-char-after-1",
+            (2, 4) => "inside-4-byte-char-after-2",
+            _ => "inside-4-byte-char-after-3",
+        }));
+    }
+    v
+}
+
+/// Implementation-only oracle for one call of a Write-based entry point into `bw` (budget `budget`), given the
+/// same call into a `Vec<u8>` (`reference` bytes, outcome `reference_kind`): with a budget of at least
+/// `reference.len()` nothing may differ from the never-failing run; with less the call must end `Err(Error::Io)`
+/// — never a panic, never `Ok`, never another error — after exactly one refused `write`, the writer holding
+/// exactly the first `budget` bytes of the never-failing run.  Returns `what` of the one signature
+/// `byte-budget-writer-differs`.
+pub fn byte_budget_verdict(kind: &str, bw: &ByteBudgetWriter, budget: usize, reference_kind: &str, reference: &[u8]) -> Option<String> {
+    if budget >= reference.len() {
+        if kind != reference_kind || bw.data != reference || bw.refused != 0 {
+            return Some(format!("byte budget {} covers the {} byte(s) of the never-failing run ({}), but the call ended {} with {} byte(s), {} refused write(s)", budget, reference.len(), reference_kind, kind, bw.data.len(), bw.refused));
+        }
+        return None;
+    }
+    if kind != "err:Io" {
+        return Some(format!("byte budget {} is smaller than the {} byte(s) of the never-failing run, but the call ended {} instead of err:Io", budget, reference.len(), kind));
+    }
+    if bw.refused != 1 {
+        return Some(format!("byte budget {}: {} write call(s) were answered with an error (the serialisation must stop at the first)", budget, bw.refused));
+    }
+    if bw.data != reference[..budget] {
+        return Some(format!("byte budget {}: the writer holds {} byte(s) that are not the first {} byte(s) of the never-failing run", budget, bw.data.len(), budget));
+    }
+    None
+}
